@@ -7,10 +7,13 @@
     list the plain and the memoising parser of the model terminate with fuel linear in the
     number of tokens ([C04_parser_terminates], from a certificate of the oal grammar: which
     productions consume a token when they succeed, and a rank that decreases along calls made
-    before anything was consumed, computed and checked by the kernel); the evaluator stage is
+    before anything was consumed, computed and checked by the kernel); the tokenizer and the parser compose
+    ([C04_syntax_front_end_terminates]: for a text without lexical error the fuel is linear in
+    the number of characters; with a lexical error the code parses the tokens it recognised,
+    which [C04_parser_terminates] covers as it holds for every token list); the evaluator stage is
     closed by C01 (type soundness, termination). Stack depth and wall-clock
     are run-time behaviour observed by the monitors (nesting depth 200, time limits). *)
-From Oal Require PegTerm GrammarTerm.
+From Oal Require PegTerm GrammarTerm Lexer LexerProofs.
 From Oal Require Import Peg Grammar PegProofs GrammarProofs Tag Unify UnifyProofs Cycles CyclesProofs Loader LoaderProofs
   Text Position Lsp LspProofs Cast CastProofs.
 Local Open Scope nat_scope.
@@ -72,3 +75,10 @@ Print Assumptions C04_parser_terminates.
 
 Example C04_parser_fuel_constants : (GrammarTerm.OR, GrammarTerm.OZ, GrammarTerm.orank P_PROGRAM) = (19, 26, 5)%nat.
 Proof. exact GrammarTerm.oal_fuel_constants. Qed.
+
+(** tokenizer then parser: linear fuel in the length of the text *)
+Theorem C04_syntax_front_end_terminates : forall t toks n, Lexer.tokenize t = Some toks ->
+  (length t * (S GrammarTerm.OR * S GrammarTerm.OZ) + S (GrammarTerm.orank P_PROGRAM) * S GrammarTerm.OZ + 1 <= n)%nat ->
+  parse_pure n (map fst toks) <> Fuel.
+Proof. exact LexerProofs.front_end_terminates. Qed.
+Print Assumptions C04_syntax_front_end_terminates.
